@@ -1,78 +1,340 @@
+// Command c06 checks property C06 (secured methods run only after a security
+// requirement is satisfied) on the real goa code.
+//
+// Tier A: ~500 placements of requirements (API / service / method x NoSecurity) built
+// through the real DSL; MethodExpr.Requirements after evaluation and the service data
+// are compared with the design's own reading and written as Coq terms for
+// Security.effective_reqs / data_reqs.
+//
+// Tier B: designs with 1-3 alternative requirements of 1-2 schemes over Basic / API key
+// / JWT / OAuth2, credentials in the implicit Authorization header, an explicit header,
+// the query string or the body, are generated, compiled and run: for every accept /
+// reject vector of the callbacks x 12 credential values the recording Auther's calls,
+// whether the method ran and the error the client got are judged by the property's own
+// laws (direct oracle) and written as Coq terms for Security.run. The generated
+// endpoint functions are parsed back into the model's mini-AST (structural tie).
 package main
 
 import (
 	"encoding/json"
+	"flag"
 	"fmt"
 	"os"
-
-	"goa.design/goa/v3/codegen/service"
-	"goa.design/goa/v3/expr"
+	"path/filepath"
+	"sort"
+	"strings"
 
 	dg "verifharness/designgen"
 	"verifharness/tierb"
 	"verifharness/tierb/rt"
+	"verifharness/vh"
 )
 
-func sfield(name, fn, scheme string, req bool) *dg.Field {
-	return &dg.Field{Name: name, A: dg.Attr{T: dg.Prim("String"), Sec: &dg.SecAttrKind{Fn: fn, Scheme: scheme}}, Required: req}
+type witness struct {
+	Design, Service, Method string
+	Attr, Value             string
+	Sig                     string   // "" = edge case expected to hold
+	Rejects                 []string // schemes scripted to reject so that the credential's scheme is consulted
+}
+
+var witnesses = []witness{
+	{"cover0", "svc", "bearer", attrToken, "a b", "bearer-token-with-space", nil},
+	{"cover0", "svc", "bearer", attrToken, "", "bearer-token-empty", nil},
+	{"cover0", "plain", "from_api", attrAToken, "x y z", "bearer-token-with-space", nil},
+	{"cover0", "plain", "from_api", attrAToken, "", "bearer-token-empty", nil},
+	{"cover0", "svc", "bearer", attrAToken, "p q", "bearer-token-with-space", []string{"jwt"}},
+	{"cover0", "svc", "three", attrKey, "K 1", "header-apikey-with-space", nil},
+	{"cover0", "plain", "keyauth", attrKey, "Key abc", "header-apikey-with-space", nil},
+	{"cover0", "svc", "bearer", attrToken, "tok\t", "header-credential-trimmed", nil},
+	{"cover1", "svc", "basic_only", attrUser, "a:b", "basic-username-with-colon", nil},
+	{"cover1", "svc", "both", attrUser, ":", "basic-username-with-colon", nil},
+	{"cover1", "svc", "inline_body", attrToken, "tok", "inline-body-sends-whole-payload", nil},
+	// edge cases inside the hypotheses: spaces are harmless outside headers, and in Basic credentials
+	{"cover0", "svc", "three", attrToken, "a b c", "", []string{"bas"}},
+	{"cover0", "svc", "three", attrAToken, " lead trail ", "", []string{"bas", "jwt"}},
+	{"cover0", "svc", "bearer", attrKey, "q k\t", "", []string{"jwt"}},
+	{"cover1", "svc", "basic_only", attrUser, "us er", "", nil},
+	{"cover1", "svc", "basic_only", attrPass, "p:w d ", "", nil},
+	{"cover1", "svc", "basic_only", attrPass, "", "", nil},
+	{"cover1", "svc", "both", attrToken, "in body", "", nil},
 }
 
 func main() {
-	out := "/tmp/c06spike"
-	b, err := tierb.NewBatch(out+"/tb", "/repo", "/verif/harness")
+	seed := flag.Uint64("seed", 1, "")
+	tier := flag.String("tier", "quick", "")
+	out := flag.String("out", ".", "")
+	repo := flag.String("repo", "/repo", "")
+	harness := flag.String("harness", "/verif/harness", "")
+	replay := flag.String("replay", "", "")
+	flag.Parse()
+	rng := vh.NewRNG(*seed)
+	res := vh.NewResult()
+	distinct := vh.Distinct{}
+
+	var replayIn map[string]any
+	if *replay != "" {
+		b, err := os.ReadFile(*replay)
+		if err != nil {
+			panic(err)
+		}
+		var rf struct {
+			Input map[string]any `json:"input"`
+		}
+		if err := json.Unmarshal(b, &rf); err != nil || rf.Input == nil {
+			fmt.Println("replay file has no input")
+			os.Exit(2)
+		}
+		replayIn = rf.Input
+	}
+
+	// ---------------- tier A ----------------
+	var inhLines []string
+	if replayIn == nil {
+		inhLines, _ = tierA(res, *out, distinct)
+	}
+	writeLines(filepath.Join(*out, "cases_inherit.txt"), inhLines)
+
+	// ---------------- tier B ----------------
+	nDesigns, nVals := 8, 12
+	if *tier == "thorough" {
+		nDesigns, nVals = 100, 12
+	}
+	b, err := tierb.NewBatch(filepath.Join(*out, "tb"), *repo, *harness)
 	if err != nil {
 		panic(err)
 	}
 	b.Env = os.Environ()
-	d := &dg.Design{Name: "spike",
-		Schemes: []dg.Scheme{{Kind: "basic", Name: "bas", Scopes: []string{"b:r"}}, {Kind: "apikey", Name: "ka"}, {Kind: "apikey", Name: "kb"}, {Kind: "jwt", Name: "jw", Scopes: []string{"api:read", "api:write"}}, {Kind: "oauth2", Name: "oa", Scopes: []string{"o:x"}}},
-		Services: []*dg.Service{{Name: "svc", Methods: []*dg.Method{{
-			Name: "m",
-			Security: []dg.Requirement{{Schemes: []string{"bas", "ka"}, Scopes: []string{"b:r"}}, {Schemes: []string{"jw", "kb"}, Scopes: []string{"api:write"}}, {Schemes: []string{"oa"}}},
-			Payload: &dg.Attr{T: dg.Obj(sfield("user", "Username", "", false), sfield("pass", "Password", "", false), sfield("key_a", "APIKey", "ka", false), sfield("key_b", "APIKey", "kb", false),
-				sfield("token", "Token", "", false), sfield("atoken", "AccessToken", "", false), dg.F("x", dg.Prim("Int")))},
-			Result: &dg.Attr{T: dg.Prim("String")},
-			HTTP: &dg.HTTPMap{Routes: []dg.Route{{Verb: "POST", Path: "/m"}}, Headers: []dg.MapEntry{{Attr: "key_a", Wire: "X-Key-A"}}, Params: []dg.MapEntry{{Attr: "key_b", Wire: "kb"}, {Attr: "atoken", Wire: "at"}}},
-		}, {Name: "open", NoSecurity: true, Result: &dg.Attr{T: dg.Prim("String")}, HTTP: &dg.HTTPMap{Routes: []dg.Route{{Verb: "GET", Path: "/open"}}}}}}},
-	}
-	bu, oc := b.Add(d, func(root *expr.RootExpr, bu *tierb.Built) {
-		sd := service.Services.Get("svc")
-		for _, m := range sd.Methods {
-			for _, r := range m.Requirements {
-				for _, s := range r.Schemes {
-					fmt.Println(m.Name, s.Type, s.SchemeName, s.Scopes, r.Scopes, s.In, s.Name)
+	var infos []*methodInfo
+	designs := map[string]*dg.Design{}
+	var replayEx *exchange
+	if replayIn != nil {
+		// replay of one exchange (tier B) or one placement (tier A: re-evaluated as a design of the batch)
+		var d dg.Design
+		db, _ := json.Marshal(replayIn["design"])
+		if err := json.Unmarshal(db, &d); err != nil {
+			panic(err)
+		}
+		addDesign(b, res, &builtDesign{D: &d}, &infos)
+		designs[d.Name] = &d
+		if replayIn["tier"] == "B" {
+			ex := exchange{Stream: "replay", Design: d.Name, Service: fmt.Sprint(replayIn["service"]), Method: fmt.Sprint(replayIn["method"]), Creds: map[string]string{}}
+			if xs, ok := replayIn["rejects"].([]any); ok {
+				for _, x := range xs {
+					ex.Rejects = append(ex.Rejects, fmt.Sprint(x))
 				}
 			}
+			if cs, ok := replayIn["creds"].(map[string]any); ok {
+				for k, v := range cs {
+					ex.Creds[k] = fmt.Sprint(v)
+				}
+			}
+			replayEx = &ex
 		}
-	})
-	fmt.Println(bu != nil, oc.Err, oc.Panic)
-	if bu != nil {
-		fmt.Println("generr", bu.GenErr)
+	} else {
+		for _, bd := range coveringDesigns() {
+			addDesign(b, res, bd, &infos)
+			designs[bd.D.Name] = bd.D
+		}
+		for i := 0; len(b.Items) < nDesigns+2 && i < nDesigns*3; i++ {
+			bd := randomDesign(rng.Fork(), i)
+			if bu := addDesign(b, res, bd, &infos); bu != nil {
+				designs[bd.D.Name] = bd.D
+			}
+		}
 	}
 	if err := b.Build(); err != nil {
 		panic(err)
 	}
-	fmt.Println("dropped", bu.Dropped, bu.BuildErr)
-	str := func(s string) *rt.Tree { return &rt.Tree{K: "string", S: s} }
-	pl := func(m map[string]string) *rt.Tree {
-		t := &rt.Tree{K: "struct"}
-		for k, v := range m {
-			t.Names = append(t.Names, dg.GoField(k))
-			t.Elems = append(t.Elems, str(v))
+	dropped := map[string]bool{}
+	for _, bu := range b.Items {
+		if bu.Dropped {
+			dropped[bu.Key] = true
+			res.Count("tierB_design_dropped")
+			res.Fail("generated-code-does-not-build", "a design of the C06 envelope was accepted but its generated code does not build: "+firstLine(bu.BuildErr+bu.GenErr),
+				map[string]any{"tier": "B", "design": bu.Design, "build_error": bu.BuildErr, "gen_error": bu.GenErr})
+			continue
 		}
-		return t
+		res.Count("tierB_designs")
+		for _, f := range bu.Design.Features {
+			res.Count("feature=" + f)
+		}
 	}
-	steps := []rt.Step{
-		{ID: 0, Design: bu.Key, Service: "svc", Method: "m", Payload: pl(map[string]string{"user": "u", "pass": "p", "key_a": "KA", "key_b": "K B", "token": "tok", "atoken": "a t"}), Result: str("ok")},
-		{ID: 1, Design: bu.Key, Service: "svc", Method: "m", Payload: pl(map[string]string{"user": "u:v", "pass": "p", "key_a": "K A", "key_b": "KB", "token": "t ok", "atoken": "at"}), Result: str("ok"), Auth: map[string]bool{"ka": false, "kb": false}},
-		{ID: 2, Design: bu.Key, Service: "svc", Method: "m", Payload: pl(map[string]string{"user": "", "pass": "", "key_a": "KA", "key_b": "KB", "token": "", "atoken": "at"}), Result: str("ok"), Auth: map[string]bool{"bas": false, "jw": false, "oa": false}},
-		{ID: 3, Design: bu.Key, Service: "svc", Method: "open", Result: str("ok")},
-		{ID: 4, Design: bu.Key, Service: "svc", Method: "m", Payload: pl(map[string]string{"key_a": "KA"}), Result: str("ok"), Auth: map[string]bool{"bas": false, "jw": false, "oa": false}},
+
+	// definitions + structural tie
+	var defs, shapeLines []string
+	for _, mi := range infos {
+		if dropped[mi.Key] {
+			continue
+		}
+		defs = append(defs, fmt.Sprintf("Definition R_%s : list requirement := %s.", mi.Def, coqReqs(mi.DataReqs)))
+		defs = append(defs, fmt.Sprintf("Definition L_%s : locs := %s.", mi.Def, coqLocs(mi)))
+		idx := len(shapeLines)
+		shapeLines = append(shapeLines, fmt.Sprintf("(%d, R_%s, %s)", idx, mi.Def, mi.Shape))
+		if mi.ShapeErr != "" {
+			res.Count("endpoint_not_parsed")
+			res.Extra["last_shape_error"] = mi.Def + ": " + mi.ShapeErr
+		}
+		res.Count(fmt.Sprintf("requirements=%d", len(mi.DataReqs)))
+	}
+	writeLines(filepath.Join(*out, "defs.v"), defs)
+	writeLines(filepath.Join(*out, "cases_shape.txt"), shapeLines)
+
+	// steps
+	var steps []rt.Step
+	var exs []exchange
+	var stepInfo []*methodInfo
+	add := func(mi *methodInfo, ex exchange) {
+		st := rt.Step{ID: len(steps), Design: mi.Key, Service: mi.S.Name, Method: mi.M.Name, Payload: payloadTree(mi.M, ex.Creds),
+			Result: &rt.Tree{K: "string", S: "ok"}, Auth: map[string]bool{}}
+		for _, n := range ex.Rejects {
+			st.Auth[n] = false
+		}
+		ex.Key = mi.Key
+		steps = append(steps, st)
+		exs = append(exs, ex)
+		stepInfo = append(stepInfo, mi)
+	}
+	find := func(design, svc, method string) *methodInfo {
+		for _, mi := range infos {
+			if mi.D.Name == design && mi.S.Name == svc && mi.M.Name == method && !dropped[mi.Key] {
+				return mi
+			}
+		}
+		return nil
+	}
+	if replayEx != nil {
+		if mi := find(replayEx.Design, replayEx.Service, replayEx.Method); mi != nil {
+			add(mi, *replayEx)
+		}
+	} else {
+		for _, mi := range infos {
+			if dropped[mi.Key] {
+				continue
+			}
+			if mi.M.HTTP != nil && mi.M.HTTP.Body != nil && len(mi.M.HTTP.Body.Attrs) > 0 {
+				continue // inline-object body: witness stream only (finding inline-body-sends-whole-payload)
+			}
+			eff := effectiveReqs(mi.D, mi.S, mi.M)
+			names := schemeNamesOf(eff)
+			if len(eff) == 0 {
+				for v := 0; v < 3; v++ {
+					// callbacks scripted to reject: they must not be consulted at all
+					var rej []string
+					if v > 0 {
+						for _, s := range mi.D.Schemes {
+							rej = append(rej, s.Name)
+						}
+					}
+					add(mi, exchange{Stream: "unsecured", Design: mi.D.Name, Service: mi.S.Name, Method: mi.M.Name, Rejects: rej, Creds: genCreds(rng, mi.M)})
+				}
+				continue
+			}
+			for vec := 0; vec < 1<<len(names); vec++ {
+				var rej []string
+				for i, n := range names {
+					if vec&(1<<i) != 0 {
+						rej = append(rej, n)
+					}
+				}
+				for v := 0; v < nVals; v++ {
+					add(mi, exchange{Stream: "main", Design: mi.D.Name, Service: mi.S.Name, Method: mi.M.Name, Rejects: rej, Creds: genCreds(rng, mi.M)})
+				}
+			}
+		}
+		for _, w := range witnesses {
+			mi := find(w.Design, w.Service, w.Method)
+			if mi == nil {
+				res.Fail("witness-design-missing", "the design carrying a witness is not in the batch", map[string]any{"witness": w})
+				continue
+			}
+			c := genCreds(rng, mi.M)
+			c[w.Attr] = w.Value
+			stream := "edge"
+			if w.Sig != "" {
+				stream = "witness:" + w.Sig
+			}
+			add(mi, exchange{Stream: stream, Design: mi.D.Name, Service: mi.S.Name, Method: mi.M.Name, Creds: c, Rejects: w.Rejects})
+		}
 	}
 	obs, err := b.Run(steps)
-	fmt.Println(err)
+	if err != nil {
+		res.Extra["driver_error"] = err.Error()
+	}
+	var exLines []string
 	for i := range steps {
-		bs, _ := json.Marshal(obs[i])
-		fmt.Println(string(bs))
+		ob := obs[steps[i].ID]
+		mi, ex := stepInfo[i], exs[i]
+		if ob == nil {
+			res.Fail("driver-no-observation", "the driver produced no observation for a step", ex)
+			continue
+		}
+		if ob.SetupErr != "" {
+			res.Count("setup_err")
+			res.Extra["last_setup_err"] = ob.SetupErr
+			res.Fail("driver-setup-error", "the exchange could not be set up: "+ob.SetupErr, ex)
+			continue
+		}
+		res.Evaluations++
+		res.Count("stream=" + strings.SplitN(ex.Stream, ":", 2)[0])
+		kb, _ := json.Marshal([]any{ex.Design, ex.Service, ex.Method, ex.Rejects, ex.Creds})
+		if len(effectiveReqs(mi.D, mi.S, mi.M)) > 0 {
+			distinct.Add(string(kb))
+		}
+		declared := false
+		for _, e := range mi.S.Errors {
+			if e.Name == "unauthorized" {
+				declared = true
+			}
+		}
+		before := len(res.Failures)
+		idx := len(exLines)
+		exLines = append(exLines, judge(res, idx, mi, ex, ob, declared))
+		res.Cases = append(res.Cases, ex)
+		if strings.HasPrefix(ex.Stream, "witness:") {
+			want := strings.TrimPrefix(ex.Stream, "witness:")
+			got := false
+			for _, f := range res.Failures[before:] {
+				if f.Signature == want {
+					got = true
+				}
+			}
+			if !got {
+				res.Fail("finding-not-reproduced:"+want, "the recorded finding "+want+" did not show on its witness", map[string]any{"tier": "B", "design": mi.D, "service": ex.Service, "method": ex.Method, "rejects": ex.Rejects, "creds": ex.Creds})
+			}
+		}
+		if ob.Invoked > 0 {
+			res.Count("outcome=invoked")
+		} else {
+			res.Count("outcome=refused")
+		}
+		res.Count(fmt.Sprintf("callbacks=%d", len(ob.AuthCalls)))
+		if ex.Stream == "main" {
+			res.Sample(map[string]any{"tier": "B", "method": ex.Service + "." + ex.Method, "rejects": ex.Rejects, "creds": ex.Creds, "calls": ob.AuthCalls, "invoked": ob.Invoked}, 4)
+		}
+	}
+	writeLines(filepath.Join(*out, "cases_exchange.txt"), exLines)
+	res.Extra["designs"] = designs
+	res.Distinct = len(distinct)
+	res.Rule = "tier A: 6 requirement-list variants at each of API / service / method x NoSecurity (every combination) evaluated through the real DSL; " +
+		"tier B: 2 fixed covering designs + seed-driven designs (1-4 schemes, one per kind; API/service/method placements; credentials implicit / header / query / body), " +
+		"per secured method all 2^k callback verdict vectors x 12 credential tuples drawn non-empty, without space/tab, user names without ':' (printable ASCII + UTF-8); " +
+		"witness stream re-demonstrates each recorded finding; non-trivial = placement or exchange of a method with at least one requirement or a NoSecurity override; distinct = distinct (placement) + distinct (design, method, verdict vector, credentials)"
+	keys := make([]string, 0, len(res.Dist))
+	for k := range res.Dist {
+		keys = append(keys, k)
+	}
+	sort.Strings(keys)
+	if err := res.Write(filepath.Join(*out, "result.json")); err != nil {
+		panic(err)
+	}
+}
+
+func writeLines(path string, lines []string) {
+	s := strings.Join(lines, "\n")
+	if len(lines) > 0 {
+		s += "\n"
+	}
+	if err := os.WriteFile(path, []byte(s), 0o644); err != nil {
+		panic(err)
 	}
 }
